@@ -28,6 +28,32 @@
 //!   C06.store.negzero_numeric     vectors with -0.0 components: numeric equality only (sign of
 //!                                 zero may be lost by the sparse representation; reported as sample)
 //!
+//! Other exact-search entry points and the named collections (`family_collections`, both tiers).  A scenario is a
+//! *space* (the default collection, a named collection -- never created / created with metric Cosine, Euclidean or
+//! DotProduct --, or the unified entity mode), a sequence of put / delete ops (put = store_embedding[_with_metadata] /
+//! store_in_collection[_with_metadata] / set_entity_embedding, a later put of the same key overwrites vector AND metadata)
+//! and "noise": every query vector itself is stored under other keys in the OTHER spaces (default collection, a sibling
+//! collection, an entity), so that a result leaking from another space would rank first.  The oracle (`pred_top`) is
+//! computed from the harness's own model: eligible = currently stored items of the space with the query's dimension that
+//! satisfy the filter (zero vectors ARE eligible: cosine 0.0 by the engine's own convention for a zero norm, dot 0,
+//! euclidean 1/(1+|q|)); expected = the eligible scores sorted best first, cut to k, then to the page [skip, skip+limit);
+//! the clause demands exactly that many results, distinct keys, each key exactly a stored user key of this space that
+//! satisfies the filter, its score equal (1e-5 relative) to the metric on its CURRENT vector, and position i carrying the
+//! (skip+i)-th best eligible score (which decides "the k best" also under ties).
+//!   C06.collection.exact     search_in_collection; metric = the collection's configured metric (cosine if never created)
+//!   C06.collection.filtered  search_filtered_in_collection (cosine collections) and search_similar_filtered, strategies
+//!                            auto / pre-filter / post-filter; filters over an Int metadata field "tag" (true, exists, eq,
+//!                            lt, ge, in, and, or; an item without the field satisfies none of the comparisons).
+//!                            Precondition (on the INPUT only): strategy = pre-filter, or k x oversample_factor >= number
+//!                            of stored vectors of the query's dimension (the post-filter candidate window covers them all)
+//!   C06.collection.filtered.window  the same calls when the window is smaller (post-filter / auto): the property still
+//!                            demands the k best matching vectors (all if fewer)
+//!   C06.collection.filtered.metric  search_filtered_in_collection in a collection configured with Euclidean / DotProduct
+//!                            (same window precondition): the scores and the ranking must be those of the collection's
+//!                            metric, whichever strategy is chosen
+//!   C06.search.variants      search_similar / search_similar_with_metric on an engine with parallel_threshold = 1 (the
+//!                            parallel scan), search_similar_paginated, search_entities, search_entities_paginated
+//!
 //! Domain (quick): alphabet {0, 1, -1, 0.5, 1e-20}; per-dimension vector pools (dim 1: all 5,
 //! dim 2: 12, dim 3: 8, dim 8: 9 incl. 87.5 %-sparse, dim 64: 5 incl. 98 %/97 %-sparse), every
 //! multiset of <= 5 (dim 1) / 4 (dims 2,3,8) / 3 (dim 64) pool vectors, mixed-dimension multisets
@@ -39,7 +65,8 @@ use serde_json::{json, Value};
 use std::collections::{BTreeMap, BTreeSet, HashMap};
 use std::panic::{catch_unwind, AssertUnwindSafe};
 use tensor_store::{HNSWConfig, HNSWDistanceMetric, HNSWIndex, ScalarValue, TensorValue};
-use vector_engine::{DistanceMetric, EmbeddingInput, SearchResult, VectorEngine};
+use vector_engine::{DistanceMetric, EmbeddingInput, FilterCondition, FilterValue, FilteredSearchConfig, Pagination, SearchResult,
+                    VectorCollectionConfig, VectorEngine, VectorEngineConfig};
 
 const T: f32 = 1e-20;
 const ALPHA: [f32; 5] = [0.0, 1.0, -1.0, 0.5, T];
@@ -55,6 +82,11 @@ const OB_HKEYS: &str = "C06.hnsw.results.keys";
 const OB_TINYQ: &str = "C06.search.structure.underflow_query";
 const OB_HCACHE: &str = "C06.hnsw.cache";
 const OB_HOTHER: &str = "C06.hnsw.cache.other_writers";
+const OB_CEXACT: &str = "C06.collection.exact";
+const OB_CFILT: &str = "C06.collection.filtered";
+const OB_CFWIN: &str = "C06.collection.filtered.window";
+const OB_CFMET: &str = "C06.collection.filtered.metric";
+const OB_VARIANTS: &str = "C06.search.variants";
 
 // ---------------------------------------------------------------- reference metric (contract side)
 
@@ -322,7 +354,7 @@ fn scn_json(base: &[(String, Vec<f32>)], ops: &[Op], api: Api, q: &[f32], k: usi
     j
 }
 
-struct Ctx { rep: Report, engine: VectorEngine, divergences: u64, max_dev64: f64, max_dev_case: Value }
+struct Ctx { rep: Report, engine: VectorEngine, engine_par: VectorEngine, divergences: u64, max_dev64: f64, max_dev_case: Value }
 
 impl Ctx {
     /// record a verdict; a failure seen on the shared (reset) engine is confirmed on a fresh engine
@@ -515,6 +547,419 @@ fn hnsw_explicit(e: &VectorEngine, model: &Model, q: &[f32], k: usize) -> Result
     pred_approx(model, q, k, &r)
 }
 
+// ---------------------------------------------------------------- named collections, filtered / paginated / entity / parallel search
+
+/// filter over the Int metadata field "tag"
+#[derive(Clone, Debug)]
+enum F { True, Exists, Eq(i64), Lt(i64), Ge(i64), In(Vec<i64>), And(Box<F>, Box<F>), Or(Box<F>, Box<F>) }
+
+impl F {
+    fn holds(&self, tag: Option<i64>) -> bool {
+        match self {
+            F::True => true,
+            F::Exists => tag.is_some(),
+            F::Eq(x) => tag == Some(*x),
+            F::Lt(x) => tag.is_some_and(|t| t < *x),
+            F::Ge(x) => tag.is_some_and(|t| t >= *x),
+            F::In(xs) => tag.is_some_and(|t| xs.contains(&t)),
+            F::And(a, b) => a.holds(tag) && b.holds(tag),
+            F::Or(a, b) => a.holds(tag) || b.holds(tag),
+        }
+    }
+    fn cond(&self) -> FilterCondition {
+        let t = || "tag".to_string();
+        match self {
+            F::True => FilterCondition::True,
+            F::Exists => FilterCondition::Exists(t()),
+            F::Eq(x) => FilterCondition::Eq(t(), FilterValue::Int(*x)),
+            F::Lt(x) => FilterCondition::Lt(t(), FilterValue::Int(*x)),
+            F::Ge(x) => FilterCondition::Ge(t(), FilterValue::Int(*x)),
+            F::In(xs) => FilterCondition::In(t(), xs.iter().map(|x| FilterValue::Int(*x)).collect()),
+            F::And(a, b) => a.cond().and(b.cond()),
+            F::Or(a, b) => a.cond().or(b.cond()),
+        }
+    }
+    fn to_json(&self) -> Value {
+        match self {
+            F::True => json!({"true": 1}), F::Exists => json!({"exists": 1}), F::Eq(x) => json!({"eq": x}), F::Lt(x) => json!({"lt": x}), F::Ge(x) => json!({"ge": x}),
+            F::In(xs) => json!({"in": xs}), F::And(a, b) => json!({"and": [a.to_json(), b.to_json()]}), F::Or(a, b) => json!({"or": [a.to_json(), b.to_json()]}),
+        }
+    }
+    fn parse(j: &Value) -> F {
+        let i = |k: &str| j[k].as_i64().unwrap_or(0);
+        if j.get("exists").is_some() { F::Exists } else if j.get("eq").is_some() { F::Eq(i("eq")) } else if j.get("lt").is_some() { F::Lt(i("lt")) }
+        else if j.get("ge").is_some() { F::Ge(i("ge")) } else if let Some(a) = j.get("in").and_then(Value::as_array) { F::In(a.iter().filter_map(Value::as_i64).collect()) }
+        else if j.get("and").is_some() { F::And(Box::new(F::parse(&j["and"][0])), Box::new(F::parse(&j["and"][1]))) }
+        else if j.get("or").is_some() { F::Or(Box::new(F::parse(&j["or"][0])), Box::new(F::parse(&j["or"][1]))) } else { F::True }
+    }
+}
+
+#[derive(Clone, Debug)]
+struct Item { key: String, v: Vec<f32>, tag: Option<i64> }
+
+#[derive(Clone, Debug)]
+enum COp { Put(Item), Del(String) }
+
+#[derive(Clone, Copy, PartialEq, Eq, Debug)]
+enum Space { Default, Coll, Entity }
+
+/// `coll` / `cmetric` only matter for Space::Coll (`cmetric` None = the collection is never created: implicit default config);
+/// `par` = engine with parallel_threshold 1
+#[derive(Clone, Debug)]
+struct CScn { space: Space, coll: String, cmetric: Option<DistanceMetric>, par: bool, noise: Vec<Vec<f32>>, ops: Vec<COp> }
+
+#[derive(Clone, Copy, PartialEq, Eq, Debug)]
+enum Strat { Auto, Pre, Post(usize) }
+
+#[derive(Clone, Debug)]
+enum CApi { InColl, FiltColl(Strat, F), Similar, Metric(DistanceMetric), Filt(Strat, F), Paged(usize, Option<usize>), Ent, EntPaged(usize, Option<usize>) }
+
+fn metric_name(m: DistanceMetric) -> &'static str { Api::Metric(m).name() }
+fn metric_parse(s: &str) -> Option<DistanceMetric> { match s { "cosine" => Some(DistanceMetric::Cosine), "euclidean" => Some(DistanceMetric::Euclidean), "dot" => Some(DistanceMetric::DotProduct), _ => None } }
+
+fn par_engine() -> VectorEngine { VectorEngine::with_config(VectorEngineConfig::default().with_parallel_threshold(1)).expect("valid config") }
+
+type CModel = BTreeMap<String, Item>;
+
+fn cscn_json(s: &CScn, api: &CApi, q: &[f32], k: usize) -> Value {
+    let ops: Vec<Value> = s.ops.iter().map(|o| match o {
+        COp::Put(i) => json!({"op": "put", "key": i.key, "v": fv(&i.v), "tag": i.tag}),
+        COp::Del(k) => json!({"op": "del", "key": k}),
+    }).collect();
+    let mut j = json!({"kind": "coll", "space": match s.space { Space::Default => "default", Space::Coll => "collection", Space::Entity => "entity" },
+                       "noise": s.noise.iter().map(|v| fv(v)).collect::<Vec<_>>(), "ops": ops, "q": fv(q), "k": k});
+    if s.space == Space::Coll { j["coll"] = json!(s.coll); j["cmetric"] = json!(s.cmetric.map(metric_name)); }
+    if s.par { j["par"] = json!(true); }
+    let strat = |j: &mut Value, st: Strat, f: &F| {
+        j["filter"] = f.to_json();
+        match st { Strat::Auto => j["strategy"] = json!("auto"), Strat::Pre => j["strategy"] = json!("pre"), Strat::Post(o) => { j["strategy"] = json!("post"); j["oversample"] = json!(o); } }
+    };
+    match api {
+        CApi::InColl => j["api"] = json!("in_collection"),
+        CApi::FiltColl(st, f) => { j["api"] = json!("filtered_in_collection"); strat(&mut j, *st, f); },
+        CApi::Similar => j["api"] = json!("similar"),
+        CApi::Metric(m) => j["api"] = json!(metric_name(*m)),
+        CApi::Filt(st, f) => { j["api"] = json!("filtered"); strat(&mut j, *st, f); },
+        CApi::Paged(sk, li) => { j["api"] = json!("paginated"); j["skip"] = json!(sk); j["limit"] = json!(li); },
+        CApi::Ent => j["api"] = json!("entities"),
+        CApi::EntPaged(sk, li) => { j["api"] = json!("entities_paginated"); j["skip"] = json!(sk); j["limit"] = json!(li); },
+    }
+    j
+}
+
+fn cscn_parse(j: &Value) -> (CScn, CApi, Vec<f32>, usize) {
+    let space = match j["space"].as_str().unwrap_or("") { "collection" => Space::Coll, "entity" => Space::Entity, _ => Space::Default };
+    let ops = j["ops"].as_array().map(|a| a.iter().map(|o| {
+        let key = o["key"].as_str().unwrap_or("").to_string();
+        if o["op"].as_str() == Some("del") { COp::Del(key) } else { COp::Put(Item { key, v: pv(&o["v"]), tag: o["tag"].as_i64() }) }
+    }).collect()).unwrap_or_default();
+    let scn = CScn { space, coll: j["coll"].as_str().unwrap_or("cc").to_string(), cmetric: j["cmetric"].as_str().and_then(metric_parse),
+                     par: j["par"].as_bool().unwrap_or(false), noise: j["noise"].as_array().map(|a| a.iter().map(pv).collect()).unwrap_or_default(), ops };
+    let st = match j["strategy"].as_str().unwrap_or("auto") { "pre" => Strat::Pre, "post" => Strat::Post(j["oversample"].as_u64().unwrap_or(3) as usize), _ => Strat::Auto };
+    let (sk, li) = (j["skip"].as_u64().unwrap_or(0) as usize, j["limit"].as_u64().map(|x| x as usize));
+    let api = match j["api"].as_str().unwrap_or("") {
+        "in_collection" => CApi::InColl, "filtered_in_collection" => CApi::FiltColl(st, F::parse(&j["filter"])), "filtered" => CApi::Filt(st, F::parse(&j["filter"])),
+        "paginated" => CApi::Paged(sk, li), "entities" => CApi::Ent, "entities_paginated" => CApi::EntPaged(sk, li),
+        m => metric_parse(m).map_or(CApi::Similar, CApi::Metric),
+    };
+    (scn, api, pv(&j["q"]), j["k"].as_u64().unwrap_or(1) as usize)
+}
+
+fn tag_meta(tag: Option<i64>) -> HashMap<String, TensorValue> {
+    let mut m = HashMap::new();
+    if let Some(t) = tag { m.insert("tag".to_string(), TensorValue::Scalar(ScalarValue::Int(t))); }
+    m
+}
+
+/// clears the engine's data and builds the scenario; returns the model of the scenario's own space
+fn csetup(e: &VectorEngine, s: &CScn) -> Result<CModel, String> {
+    reset(e);
+    let sibling = if s.coll == "zz" { "zy" } else { "zz" };
+    if s.space == Space::Coll {
+        let _ = e.delete_collection(&s.coll);
+        if let Some(m) = s.cmetric { e.create_collection(&s.coll, VectorCollectionConfig::default().with_metric(m)).map_err(|x| format!("create_collection = Err({x})"))?; }
+    }
+    for (i, nv) in s.noise.iter().enumerate() {
+        if s.space != Space::Default { e.store_embedding(&format!("noise{i}"), nv.clone()).map_err(|x| format!("noise: {x}"))?; }
+        if s.space != Space::Entity { e.set_entity_embedding(&format!("noise:e{i}"), nv.clone()).map_err(|x| format!("noise: {x}"))?; }
+        e.store_in_collection(sibling, &format!("noise{i}"), nv.clone()).map_err(|x| format!("noise: {x}"))?;
+    }
+    let mut model = CModel::new();
+    for op in &s.ops {
+        match op {
+            COp::Put(it) => {
+                let r = match s.space {
+                    Space::Default if it.tag.is_some() => e.store_embedding_with_metadata(&it.key, it.v.clone(), tag_meta(it.tag)),
+                    Space::Default => e.store_embedding(&it.key, it.v.clone()),
+                    Space::Coll if it.tag.is_some() => e.store_in_collection_with_metadata(&s.coll, &it.key, it.v.clone(), tag_meta(it.tag)),
+                    Space::Coll => e.store_in_collection(&s.coll, &it.key, it.v.clone()),
+                    Space::Entity => e.set_entity_embedding(&it.key, it.v.clone()),
+                };
+                r.map_err(|x| format!("put {:?} {:?} = Err({x})", it.key, it.v))?;
+                model.insert(it.key.clone(), it.clone());
+            },
+            COp::Del(k) => {
+                let r = match s.space { Space::Default => e.delete_embedding(k), Space::Coll => e.delete_from_collection(&s.coll, k), Space::Entity => e.remove_entity_embedding(k) };
+                let had = model.remove(k).is_some();
+                if r.is_ok() != had { return Err(format!("delete {k:?} = {r:?} but the key was stored = {had}")); }
+            },
+        }
+    }
+    // read-back through the space's own getter: exactly as written
+    for it in model.values() {
+        let g = match s.space { Space::Default => e.get_embedding(&it.key), Space::Coll => e.get_from_collection(&s.coll, &it.key), Space::Entity => e.get_entity_embedding(&it.key) };
+        match g { Ok(g) if bits(&g) == bits(&it.v) => {}, other => return Err(format!("key {:?} stored as {:?} reads back as {other:?}", it.key, it.v)) }
+    }
+    Ok(model)
+}
+
+fn fcfg(st: Strat) -> Option<FilteredSearchConfig> {
+    match st { Strat::Auto => None, Strat::Pre => Some(FilteredSearchConfig::pre_filter()), Strat::Post(o) => Some(FilteredSearchConfig::post_filter().with_oversample(o)) }
+}
+
+fn cdo(e: &VectorEngine, s: &CScn, api: &CApi, q: &[f32], k: usize) -> Result<Vec<SearchResult>, String> {
+    let r = catch_unwind(AssertUnwindSafe(|| match api {
+        CApi::InColl => e.search_in_collection(&s.coll, q, k),
+        CApi::FiltColl(st, f) => e.search_filtered_in_collection(&s.coll, q, k, &f.cond(), fcfg(*st)),
+        CApi::Similar => e.search_similar(q, k),
+        CApi::Metric(m) => e.search_similar_with_metric(q, k, *m),
+        CApi::Filt(st, f) => e.search_similar_filtered(q, k, &f.cond(), fcfg(*st)),
+        CApi::Paged(sk, li) => e.search_similar_paginated(q, k, Pagination { skip: *sk, limit: *li, count_total: false }).map(|p| p.items),
+        CApi::Ent => e.search_entities(q, k),
+        CApi::EntPaged(sk, li) => e.search_entities_paginated(q, k, Pagination { skip: *sk, limit: *li, count_total: true }).map(|p| p.items),
+    }));
+    match r {
+        Ok(Ok(v)) => Ok(v),
+        Ok(Err(x)) => Err(format!("search returned Err({x})")),
+        Err(_) => Err("search panicked".into()),
+    }
+}
+
+/// the exact-search clause against the model (see the module doc)
+#[allow(clippy::too_many_arguments)]
+fn pred_top(model: &CModel, filt: Option<&F>, m: DistanceMetric, q: &[f32], k: usize, skip: usize, limit: Option<usize>, res: &[SearchResult]) -> Result<(), String> {
+    let sc = |v: &[f32]| Api::Metric(m).score(q, v);
+    let ok = |it: &Item| it.v.len() == q.len() && filt.map_or(true, |f| f.holds(it.tag));
+    let mut best: Vec<(f32, &String)> = model.values().filter(|it| ok(it)).map(|it| (sc(&it.v), &it.key)).collect();
+    best.sort_by(|a, b| b.0.partial_cmp(&a.0).unwrap_or(std::cmp::Ordering::Equal));
+    let fetched = k.min(best.len());
+    let hi = limit.map_or(fetched, |l| fetched.min(skip.saturating_add(l)));
+    let want = hi.saturating_sub(skip);
+    let mut seen = BTreeSet::new();
+    for r in res {
+        if !seen.insert(r.key.clone()) { return Err(format!("key {:?} returned twice: {res:?}", r.key)); }
+        let Some(it) = model.get(&r.key) else { return Err(format!("key {:?} is not a key currently stored in this space (stored keys: {:?}): {res:?}", r.key, model.keys().collect::<Vec<_>>())); };
+        if it.v.len() != q.len() { return Err(format!("key {:?} has dimension {} but the query has {}", r.key, it.v.len(), q.len())); }
+        if !filt.map_or(true, |f| f.holds(it.tag)) { return Err(format!("key {:?} (tag {:?}) does not satisfy the filter: {res:?}", r.key, it.tag)); }
+        if !close_rel(r.score, sc(&it.v)) { return Err(format!("key {:?} reported with score {:e}, but {} on its current vector {:?} is {:e}", r.key, r.score, metric_name(m), it.v, sc(&it.v))); }
+    }
+    if res.len() != want {
+        return Err(format!("{} results, expected {want} (eligible = {} stored vectors of dimension {} satisfying the filter, k = {k}, page skip {skip} limit {limit:?}; eligible by score: {best:?}): {res:?}",
+                           res.len(), best.len(), q.len()));
+    }
+    for w in res.windows(2) { if !(w[0].score >= w[1].score) { return Err(format!("scores not non-increasing: {res:?}")); } }
+    for (i, r) in res.iter().enumerate() {
+        let e = best[skip + i].0;
+        if !(close_rel(r.score, e) || (r.score - e).abs() <= 1e-5 * e.abs().max(r.score.abs())) {
+            return Err(format!("position {} holds key {:?} with score {:e}, but the eligible vector of rank {} is {:?} with {} score {e:e}: {res:?}", skip + i, r.key, r.score, skip + i, best[skip + i].1, metric_name(m)));
+        }
+    }
+    Ok(())
+}
+
+/// obligation (decided by the INPUT only) and verdict of one probe
+fn cjudge(e: &VectorEngine, s: &CScn, model: &CModel, api: &CApi, q: &[f32], k: usize) -> (&'static str, Result<(), String>) {
+    let same_dim = model.values().filter(|it| it.v.len() == q.len()).count();
+    let window = |st: Strat| match st { Strat::Pre => true, Strat::Auto => k.saturating_mul(3) >= same_dim, Strat::Post(o) => k.saturating_mul(o).max(k) >= same_dim };
+    let cm = s.cmetric.unwrap_or(DistanceMetric::Cosine);
+    let (ob, filt, m, skip, limit): (&'static str, Option<&F>, DistanceMetric, usize, Option<usize>) = match api {
+        CApi::InColl => (OB_CEXACT, None, cm, 0, None),
+        CApi::FiltColl(st, f) => (if !window(*st) { OB_CFWIN } else if cm != DistanceMetric::Cosine { OB_CFMET } else { OB_CFILT }, Some(f), cm, 0, None),
+        CApi::Filt(st, f) => (if window(*st) { OB_CFILT } else { OB_CFWIN }, Some(f), DistanceMetric::Cosine, 0, None),
+        CApi::Similar | CApi::Ent => (OB_VARIANTS, None, DistanceMetric::Cosine, 0, None),
+        CApi::Metric(m) => (OB_VARIANTS, None, *m, 0, None),
+        CApi::Paged(sk, li) | CApi::EntPaged(sk, li) => (OB_VARIANTS, None, DistanceMetric::Cosine, *sk, *li),
+    };
+    (ob, cdo(e, s, api, q, k).and_then(|res| pred_top(model, filt, m, q, k, skip, limit, &res)))
+}
+
+fn creplay(ob: &str, case: &Value) -> Result<String, String> {
+    let (scn, api, q, k) = cscn_parse(case);
+    let e = if scn.par { par_engine() } else { VectorEngine::new() };
+    let model = csetup(&e, &scn).map_err(|d| format!("setup failed: {d}"))?;
+    let (o, r) = cjudge(&e, &scn, &model, &api, &q, k);
+    if o != ob { return Ok(format!("obligation {ob} is not decided by this case (it decides {o})")); }
+    r.map(|()| "holds".to_string())
+}
+
+impl Ctx {
+    /// one scenario, every query x api x k in {1, 2, n, n+1} (n = stored vectors of the query's dimension)
+    fn cscenario(&mut self, scn: &CScn, queries: &[Vec<f32>], apis: &[CApi]) {
+        let mut scn = scn.clone();
+        scn.noise = queries.to_vec();
+        let built = csetup(if scn.par { &self.engine_par } else { &self.engine }, &scn);
+        let model = match built {
+            Ok(m) => m,
+            Err(d) => {
+                let ob = cjudge_ob(&scn, &apis[0]);
+                self.rep.check(ob, false, &|| cscn_json(&scn, &apis[0], &[], 0), &|| format!("setup failed: {d}"));
+                return;
+            },
+        };
+        for q in queries {
+            let n = model.values().filter(|it| it.v.len() == q.len()).count();
+            let mut ks = vec![1usize, 2, n, n + 1];
+            ks.retain(|k| *k > 0);
+            ks.sort_unstable();
+            ks.dedup();
+            for api in apis {
+                for &k in &ks {
+                    let (ob, r) = cjudge(if scn.par { &self.engine_par } else { &self.engine }, &scn, &model, api, q, k);
+                    self.rep.eval(n > 0);
+                    self.record(ob, &r, &|| cscn_json(&scn, api, q, k));
+                }
+            }
+        }
+    }
+}
+
+fn cjudge_ob(s: &CScn, api: &CApi) -> &'static str {
+    match api {
+        CApi::InColl => OB_CEXACT,
+        CApi::FiltColl(..) if s.cmetric.is_some_and(|m| m != DistanceMetric::Cosine) => OB_CFMET,
+        CApi::FiltColl(..) | CApi::Filt(..) => OB_CFILT,
+        _ => OB_VARIANTS,
+    }
+}
+
+fn multisets_of<T: Clone>(pool: &[T], max: usize) -> Vec<Vec<T>> { multisets(pool.len(), max).into_iter().map(|ms| ms.iter().map(|i| pool[*i].clone()).collect()).collect() }
+
+fn puts(items: &[(Vec<f32>, Option<i64>)]) -> Vec<COp> {
+    items.iter().enumerate().map(|(i, (v, t))| COp::Put(Item { key: format!("k{i}"), v: v.clone(), tag: *t })).collect()
+}
+
+/// the spaces every unfiltered family runs in, with the entry points of each
+fn exact_spaces() -> Vec<(CScn, Vec<CApi>)> {
+    use DistanceMetric::{Cosine, DotProduct, Euclidean};
+    let scn = |space: Space, coll: &str, cmetric: Option<DistanceMetric>, par: bool| CScn { space, coll: coll.into(), cmetric, par, noise: vec![], ops: vec![] };
+    vec![
+        (scn(Space::Coll, "ci", None, false), vec![CApi::InColl]),
+        (scn(Space::Coll, "cc", Some(Cosine), false), vec![CApi::InColl]),
+        (scn(Space::Coll, "ce", Some(Euclidean), false), vec![CApi::InColl]),
+        (scn(Space::Coll, "cd", Some(DotProduct), false), vec![CApi::InColl]),
+        (scn(Space::Default, "", None, true), vec![CApi::Similar, CApi::Metric(Cosine), CApi::Metric(Euclidean), CApi::Metric(DotProduct)]),
+        (scn(Space::Default, "", None, false), vec![CApi::Paged(0, None), CApi::Paged(1, Some(1)), CApi::Paged(0, Some(2)), CApi::Paged(2, None)]),
+        (scn(Space::Entity, "", None, false), vec![CApi::Ent, CApi::EntPaged(1, Some(2)), CApi::EntPaged(0, None)]),
+    ]
+}
+
+fn family_collections(cx: &mut Ctx) {
+    use DistanceMetric::{Cosine, DotProduct, Euclidean};
+    let spaces = exact_spaces();
+    let with_ops = |s: &CScn, ops: Vec<COp>| { let mut s = s.clone(); s.ops = ops; s };
+    let plain = |vs: &[Vec<f32>]| puts(&vs.iter().map(|v| (v.clone(), None)).collect::<Vec<_>>());
+
+    // F1: dimension 3 -- zero vector, sparse, dense, vectors opposite to the queries (negative scores), duplicates (multisets);
+    //     two stored vectors of other dimensions are always present
+    let pool3: Vec<Vec<f32>> = vec![vec![0.0, 0.0, 0.0], vec![1.0, 0.0, 0.0], vec![0.0, 0.0, 1.0], vec![1.0, 1.0, 1.0], vec![-1.0, 0.0, 0.0], vec![-1.0, -1.0, -1.0],
+                                    vec![0.5, 0.5, -1.0], vec![0.0, T, 0.0], vec![-1.0, 0.5, 0.0]];
+    let q3: Vec<Vec<f32>> = vec![vec![1.0, 0.0, 0.0], vec![1.0, 1.0, 1.0], vec![-1.0, 0.5, T]];
+    let mut e64 = vec![0f32; 64];
+    e64[0] = 1.0;
+    for vs in multisets_of(&pool3, 3) {
+        let mut ops = plain(&vs);
+        ops.push(COp::Put(Item { key: "m2".into(), v: vec![1.0, 0.0], tag: None }));
+        ops.push(COp::Put(Item { key: "m64".into(), v: e64.clone(), tag: None }));
+        for (s, apis) in &spaces { cx.cscenario(&with_ops(s, ops.clone()), &q3, apis); }
+    }
+    // F2: dimension 64 -- zero, 98 % / 97 % sparse, dense, opposite
+    let mut two = vec![0f32; 64];
+    two[10] = 0.5;
+    two[63] = -1.0;
+    let alpha64: Vec<f32> = (0..64).map(|i| ALPHA[(i * 3 + 1) % 5]).collect();
+    let pool64: Vec<Vec<f32>> = vec![vec![0.0; 64], e64.clone(), two.clone(), alpha64.clone(), vec![1.0; 64], vec![-1.0; 64]];
+    let q64 = vec![e64.clone(), vec![1.0; 64], alpha64, two];
+    for vs in multisets_of(&pool64, 3) {
+        for (s, apis) in &spaces { cx.cscenario(&with_ops(s, plain(&vs)), &q64, apis); }
+    }
+    // F3: mixed dimensions (incl. zero vectors of several dimensions), queries of dimensions 1, 2, 3 and 4 (no eligible vector)
+    let poolm: Vec<Vec<f32>> = vec![vec![1.0], vec![-1.0], vec![0.0], vec![1.0, 0.0], vec![0.0, 0.0], vec![0.5, 1.0], vec![1.0, 0.0, 0.0], vec![0.0, 0.0, 0.0]];
+    let qm = vec![vec![1.0], vec![0.5, 1.0], vec![1.0, 1.0, 0.0], vec![1.0; 4]];
+    for vs in multisets_of(&poolm, 3) {
+        for (s, apis) in &spaces { cx.cscenario(&with_ops(s, plain(&vs)), &qm, apis); }
+    }
+    // F4: op sequences of length <= 2 (store / overwrite -- also with the zero vector and with another dimension -- / delete) from two bases
+    {
+        let opv: Vec<Vec<f32>> = vec![vec![1.0, 0.0, 0.0], vec![0.0, 0.0, 0.0], vec![-1.0, 0.0, 0.0], vec![0.0, 1.0]];
+        let mut alphabet: Vec<COp> = vec![];
+        for key in ["a", "b", "c"] { alphabet.push(COp::Del(key.into())); for v in &opv { alphabet.push(COp::Put(Item { key: key.into(), v: v.clone(), tag: None })); } }
+        let bases: Vec<Vec<COp>> = vec![vec![], vec![COp::Put(Item { key: "a".into(), v: vec![1.0, 0.0, 0.0], tag: None }), COp::Put(Item { key: "b".into(), v: vec![0.0, 0.0, 0.0], tag: None })]];
+        let qs = vec![vec![1.0, 0.0, 0.0], vec![0.5, 1.0]];
+        let mut seqs: Vec<Vec<COp>> = vec![vec![]];
+        for a in &alphabet { seqs.push(vec![a.clone()]); for b in &alphabet { seqs.push(vec![a.clone(), b.clone()]); } }
+        for base in &bases { for seq in &seqs {
+            let ops: Vec<COp> = base.iter().chain(seq.iter()).cloned().collect();
+            for (i, (s, apis)) in spaces.iter().enumerate() { if i != 0 && i != 2 { cx.cscenario(&with_ops(s, ops.clone()), &qs, &apis[..apis.len().min(2)]); } }
+        } }
+    }
+    // F5: metadata filters -- (vector, tag) pairs over {zero, e1, -e1, ones} x {no tag, 0, 1}; strategies auto / pre-filter / post-filter.
+    //     default collection and a cosine collection: every multiset of <= 3 pairs, 4 filters; parallel engine and a never-created
+    //     collection: every multiset of <= 2, 6 filters; Euclidean / DotProduct collections (C06.collection.filtered.metric): <= 1 pair.
+    //     (<= 3 stored vectors of the query's dimension: the default post-filter window 3k always covers them)
+    let filters = vec![F::True, F::Eq(1), F::And(Box::new(F::Ge(0)), Box::new(F::Lt(1))), F::In(vec![1, 5]), F::Exists, F::Or(Box::new(F::Lt(0)), Box::new(F::Ge(1)))];
+    let fapis = |coll: bool, nf: usize, strategies: &[Strat]| -> Vec<CApi> {
+        let mut v = vec![];
+        for f in &filters[..nf] { for st in strategies { v.push(if coll { CApi::FiltColl(*st, f.clone()) } else { CApi::Filt(*st, f.clone()) }); } }
+        v
+    };
+    let scn = |space: Space, coll: &str, cmetric: Option<DistanceMetric>, par: bool| CScn { space, coll: coll.into(), cmetric, par, noise: vec![], ops: vec![] };
+    let s3 = [Strat::Auto, Strat::Pre, Strat::Post(3)];
+    // (space, entry points, largest multiset)
+    let fspaces: Vec<(CScn, Vec<CApi>, usize)> = vec![
+        (scn(Space::Default, "", None, false), fapis(false, 4, &s3), 3), (scn(Space::Coll, "cc", Some(Cosine), false), fapis(true, 4, &s3), 3),
+        (scn(Space::Default, "", None, true), fapis(false, 6, &s3), 2), (scn(Space::Coll, "ci", None, false), fapis(true, 6, &s3), 2),
+        (scn(Space::Coll, "ce", Some(Euclidean), false), fapis(true, 2, &s3), 1), (scn(Space::Coll, "cd", Some(DotProduct), false), fapis(true, 2, &s3), 1),
+    ];
+    let mut pairs: Vec<(Vec<f32>, Option<i64>)> = vec![];
+    for v in [vec![0.0f32, 0.0, 0.0], vec![1.0, 0.0, 0.0], vec![-1.0, 0.0, 0.0], vec![1.0, 1.0, 1.0]] { for t in [None, Some(0), Some(1)] { pairs.push((v.clone(), t)); } }
+    let qf = vec![vec![1.0, 0.0, 0.0], vec![-1.0, 0.5, T]];
+    for ms in multisets_of(&pairs, 3) {
+        let mut ops = puts(&ms);
+        ops.push(COp::Put(Item { key: "m2".into(), v: vec![1.0, 0.0], tag: Some(1) }));
+        // (the two non-cosine collections: one query each)
+        for (i, (s, apis, maxn)) in fspaces.iter().enumerate() { if ms.len() <= *maxn { cx.cscenario(&with_ops(s, ops.clone()), if i < 4 { &qf } else { &qf[i - 4..i - 3] }, apis); } }
+    }
+    // F6: 12 stored vectors of dimension 2 with pairwise different scores under every metric (incl. the zero vector and vectors
+    //     opposite to the query); exactly one carries tag 1 (at every rank), the others tag 0: eq 1 matches 1/12 (auto selects
+    //     pre-filter), eq 0 matches 11/12 (auto selects post-filter); k in {1, 2, 12, 13}; post-filter with oversample 3 and 1
+    //     (k = 1, 2: the candidate window is smaller than the stored set => C06.collection.filtered.window)
+    let v12: Vec<Vec<f32>> = (0..12).map(|i| if i == 0 { vec![0.0, 0.0] } else { vec![1.125 - 0.25 * (i as f32 - 1.0), 0.5] }).collect();
+    let s4 = [Strat::Auto, Strat::Pre, Strat::Post(3), Strat::Post(1)];
+    let f6 = [F::Eq(1), F::Eq(0), F::In(vec![1]), F::True];
+    for hot in 0..12 {
+        let ops = puts(&v12.iter().enumerate().map(|(i, v)| (v.clone(), Some(i64::from(i == hot)))).collect::<Vec<_>>());
+        // default collection and cosine collection: every rank; DotProduct collection: three ranks
+        for (s, _, _) in [&fspaces[0], &fspaces[1], &fspaces[5]] {
+            if s.cmetric == Some(DotProduct) && ![0, 1, 6].contains(&hot) { continue; }
+            // (DotProduct collection: pre-filter and a post-filter window that always covers the 12 vectors)
+            let sts: &[Strat] = if s.cmetric == Some(DotProduct) { &[Strat::Pre, Strat::Post(12)] } else { &s4 };
+            let mut apis = vec![];
+            for f in &f6 { for &st in sts { apis.push(if s.space == Space::Coll { CApi::FiltColl(st, f.clone()) } else { CApi::Filt(st, f.clone()) }); } }
+            cx.cscenario(&with_ops(s, ops.clone()), &[vec![1.0, 0.0]], &apis);
+        }
+        for (s, apis) in &spaces { cx.cscenario(&with_ops(s, ops.clone()), &[vec![1.0, 0.0], vec![-1.0, T]], apis); }
+    }
+    // F7: user keys that look like storage keys (reported key = exactly the stored user key)
+    for ks in [vec!["emb:doc", "doc"], vec!["emb:doc"], vec!["emb:", "e"], vec!["coll:cc:emb:k", "k"], vec!["emb:emb:z", "z", "\u{e9}\u{4e16}"], vec!["cc:emb:x", "coll:", ":"]] {
+        let vs = [vec![1.0f32, 0.0, 0.0], vec![0.5, 0.5, -1.0], vec![0.0, 0.0, 0.0]];
+        let ops: Vec<COp> = ks.iter().enumerate().map(|(i, k)| COp::Put(Item { key: (*k).to_string(), v: vs[i].clone(), tag: Some(1) })).collect();
+        let qk = vec![vec![1.0, 0.0, 0.0], vec![0.0, 1.0, -1.0]];
+        for (s, apis) in &spaces { cx.cscenario(&with_ops(s, ops.clone()), &qk, apis); }
+        let kf = |coll: bool| -> Vec<CApi> { [Strat::Auto, Strat::Pre, Strat::Post(3)].into_iter().map(|st| if coll { CApi::FiltColl(st, F::Eq(1)) } else { CApi::Filt(st, F::Eq(1)) }).collect() };
+        for (s, _, _) in &fspaces[..4] { cx.cscenario(&with_ops(s, ops.clone()), &qk, &kf(s.space == Space::Coll)); }
+    }
+}
+
 // ---------------------------------------------------------------- run
 
 pub fn run(tier: Tier, seed: u64) -> Report {
@@ -522,14 +967,19 @@ pub fn run(tier: Tier, seed: u64) -> Report {
     let rep = Report::new("c06_search",
         &format!("alphabet {{0,1,-1,0.5,1e-20}}; store/read-back: all vectors of dim 1..3, structured dense / 87-98 %-sparse / boundary vectors of dim 8 and 64, each fresh and as overwrite of a dense resp. sparse value; \
 search without index: every multiset of <= {} pool vectors per dimension (pools: dim1 5, dim2 {}, dim3 {}, dim8 {}, dim64 {}) and mixed-dimension multisets of <= 4 of 8, every non-zero pool vector as query, k in {{1,2,n,n+1}}, search_similar + search_similar_with_metric x 3 metrics; \
-op sequences: all of length <= {} over store(a|b|c x 5 vectors incl. zero and a 3-dim one) / delete(a|b|c) / build_and_cache_index from 2 base stores, queries incl. other-dimension ones; other writers (store_with_metadata, batch_store, batch_delete, clear) after a build; HNSWIndex insert/search/search_with_ef x 3 metrics on multisets of <= 3{}",
+op sequences: all of length <= {} over store(a|b|c x 5 vectors incl. zero and a 3-dim one) / delete(a|b|c) / build_and_cache_index from 2 base stores, queries incl. other-dimension ones; other writers (store_with_metadata, batch_store, batch_delete, clear) after a build; HNSWIndex insert/search/search_with_ef x 3 metrics on multisets of <= 3; \
+named collections (never created / Cosine / Euclidean / DotProduct), default collection on an engine with parallel_threshold 1, paginated search and entity mode, each with the query vectors stored as noise in the other spaces: \
+every multiset of <= 3 of 9 dim-3 vectors (zero, sparse, dense, opposite) plus 2 vectors of other dimensions, of 6 dim-64 vectors (zero, 98 % sparse, dense, opposite), of 8 mixed-dimension vectors; put/overwrite/delete sequences of length <= 2; \
+filtered search (auto / pre / post-filter, 6 filters over an Int tag) on every multiset of <= 3 of 12 (vector, tag) pairs and on 12 distinct-score vectors with the single matching one at every position; user keys shaped like storage keys (emb:doc, coll:cc:emb:k, ...); k in {{1,2,n,n+1}}{}",
                  if th { "5" } else { "5/4/4/4/3" }, pool(2, tier).len(), pool(3, tier).len(), pool(8, tier).len(), pool(64, tier).len(),
                  if th { 4 } else { 3 }, if th { "; plus 20000 seeded random scenarios (not exhaustive)" } else { "" }),
         true,
         &["VectorEngine::store_embedding", "get_embedding", "delete_embedding", "search_similar", "search_similar_with_metric", "build_and_cache_index",
           "build_hnsw_index", "search_with_hnsw", "store_embedding_with_metadata", "batch_store_embeddings", "batch_delete_embeddings", "clear",
-          "HNSWIndex::insert", "HNSWIndex::search", "HNSWIndex::search_with_ef"]);
-    let mut cx = Ctx { rep, engine: VectorEngine::new(), divergences: 0, max_dev64: 0.0, max_dev_case: Value::Null };
+          "HNSWIndex::insert", "HNSWIndex::search", "HNSWIndex::search_with_ef",
+          "search_in_collection", "search_filtered_in_collection", "search_similar_filtered", "search_similar_paginated", "search_entities", "search_entities_paginated",
+          "store_in_collection", "store_in_collection_with_metadata", "delete_from_collection", "get_from_collection", "set_entity_embedding", "remove_entity_embedding"]);
+    let mut cx = Ctx { rep, engine: VectorEngine::new(), engine_par: par_engine(), divergences: 0, max_dev64: 0.0, max_dev_case: Value::Null };
     cx.rep.declare(OB_STORE, "VectorEngine::store_embedding/get_embedding");
     cx.rep.declare(OB_NEGZ, "VectorEngine::store_embedding/get_embedding");
     cx.rep.declare(OB_STRUCT, "VectorEngine::search_similar/search_similar_with_metric");
@@ -541,6 +991,11 @@ op sequences: all of length <= {} over store(a|b|c x 5 vectors incl. zero and a 
     cx.rep.declare(OB_TINYQ, "VectorEngine::search_similar/search_similar_with_metric, non-zero query with |q|^2 < f32 min");
     cx.rep.declare(OB_HCACHE, "VectorEngine::store_embedding/delete_embedding after build_and_cache_index");
     cx.rep.declare(OB_HOTHER, "VectorEngine::store_embedding_with_metadata/batch_*/clear after build_and_cache_index");
+    cx.rep.declare(OB_CEXACT, "VectorEngine::search_in_collection");
+    cx.rep.declare(OB_CFILT, "VectorEngine::search_filtered_in_collection, search_similar_filtered");
+    cx.rep.declare(OB_CFWIN, "VectorEngine::search_filtered_in_collection, search_similar_filtered (post-filter window smaller than the stored set)");
+    cx.rep.declare(OB_CFMET, "VectorEngine::search_filtered_in_collection in a collection with metric Euclidean / DotProduct");
+    cx.rep.declare(OB_VARIANTS, "VectorEngine::search_similar/search_similar_with_metric (parallel scan), search_similar_paginated, search_entities, search_entities_paginated");
 
     // ---- A. read-back
     let mut negz_obs = vec![];
@@ -677,6 +1132,9 @@ op sequences: all of length <= {} over store(a|b|c x 5 vectors incl. zero and a 
         cx.scenario(&keyed(&base), &[], &qs, &APIS, "underflow");
     }
 
+    // ---- named collections, filtered / paginated / entity / parallel entry points
+    family_collections(&mut cx);
+
     // ---- thorough: seeded random scenarios beyond the exhaustive core
     if th {
         let mut rng = Rng(seed ^ 0xC06);
@@ -710,6 +1168,7 @@ op sequences: all of length <= {} over store(a|b|c x 5 vectors incl. zero and a 
 
 pub fn replay(ob: &str, case: &Value) -> Result<String, String> {
     match case["kind"].as_str().unwrap_or("search") {
+        "coll" => creplay(ob, case),
         "store" => {
             let v = pv(&case["v"]);
             let pre = if case["pre"].is_null() { None } else { Some(pv(&case["pre"])) };
